@@ -78,6 +78,7 @@ func runC15(c *Ctx) {
 	}
 
 	ruleS6(c, "O7")
+	ruleO8(c, "O8")
 
 	roots := comparatorRoots(c)
 	if len(roots) < 4 {
